@@ -513,6 +513,8 @@ class Engine:
         self._counter = {}
         self.on_path_end = []   # callbacks (generator threads cleanup)
         self.cvc5_first = True
+        self.dissent_timeout_ms = 300
+        self.disagreements = 0
         self.cvc5_branch = False
         self.cvc5_branch_timeout = 3.0
         self.cvc5_branch_queries = 0
@@ -603,6 +605,13 @@ class Engine:
             if st == 'sat':
                 return st, _DictModel(vals)
             if st == 'unsat':
+                # an unsat verdict cannot be replayed: ask the second solver for a quick dissent
+                s2 = z3.Solver()
+                s2.set('timeout', self.dissent_timeout_ms)
+                s2.add(*assertions)
+                if str(s2.check()) == 'sat':
+                    self.disagreements += 1
+                    return 'sat', s2.model()
                 return st, None
         s = z3.Solver()
         s.set('timeout', timeout_ms)
